@@ -117,14 +117,14 @@ theorem finalPred_eq (cfg : Cfg) (interim : List (Bytes → Bool)) (rb : Bytes) 
   | nil => simp
   | cons p ps => simp [anyPromptPred, promptPred]
 
-/-- the echo read of a command that is not empty, or in exact mode, is the plain echo read -/
-theorem echoRead_eq (cfg : Cfg) (cmd : Bytes) (q : List Bytes) (h : skipsEcho cfg cmd = false) :
+/-- the echo read of a command that is not empty is the plain echo read -/
+theorem echoRead_eq (cfg : Cfg) (cmd : Bytes) (q : List Bytes) (h : skipsEcho cmd = false) :
     echoRead cfg cmd q = readUntil (echoPred cfg cmd) q [] := by
   simp [echoRead, h]
 
 /-- without options (and unless the echo read is skipped) the optioned send is the plain send the
 theorems above are about -/
-theorem sendInputO_default (cfg : Cfg) (s : Sess) (x : Exchange) (h : skipsEcho cfg x.cmd = false) :
+theorem sendInputO_default (cfg : Cfg) (s : Sess) (x : Exchange) (h : skipsEcho x.cmd = false) :
     sendInputO cfg {} s x = sendInput cfg s x := by
   unfold sendInputO sendInput finalPred
   simp [echoRead_eq, h]
@@ -133,10 +133,10 @@ theorem sendInputO_default (cfg : Cfg) (s : Sess) (x : Exchange) (h : skipsEcho 
 /-- Well-formedness of a send with options, for `stale` bytes left in the queue: as `WellFormed`,
 but the answer is judged by the completion predicate the options select (`finalPred`: prompt
 pattern or any interim pattern, on the search window), an eager send asks nothing of the answer
-(it never reads it), and an empty input in fuzzy mode asks nothing of the echo (it is not read:
+(it never reads it), and an empty input asks nothing of the echo (it is not read:
 whatever is queued is then part of what the second read sees, `sendPre`). -/
 def WellFormedO (cfg : Cfg) (o : SendOpts) (stale : Bytes) (x : Exchange) : Prop :=
-  (skipsEcho cfg x.cmd = false →
+  (skipsEcho x.cmd = false →
     stale ++ x.echo.flatten ≠ [] ∧ ExactAt (echoPred cfg x.cmd) (stale ++ x.echo.flatten)) ∧
   (o.eager = false → sendPre cfg stale x ++ x.resp.flatten ≠ [] ∧
     ExactAt (finalPred cfg o.interim) (sendPre cfg stale x ++ x.resp.flatten))
@@ -146,25 +146,26 @@ the device emits for the bare return (preceded by whatever was left in the queue
 def WellFormedP (cfg : Cfg) (stale : Bytes) (resp : List Bytes) : Prop :=
   stale ++ resp.flatten ≠ [] ∧ ExactAt (promptPred cfg) (stale ++ resp.flatten)
 
-/-- a well-formed plain exchange never has the echo read skipped: an empty input in fuzzy mode is
-"seen" in the empty text, so its echo predicate cannot first hold at the end of a non-empty one -/
+/-- a well-formed plain exchange never has the echo read skipped: an empty input is "seen" in the
+empty text (in both matching modes), so its echo predicate cannot first hold at the end of a
+non-empty one -/
 theorem wellFormed_not_skips (cfg : Cfg) (stale : List Bytes) (x : Exchange)
-    (h : WellFormed cfg stale x) : skipsEcho cfg x.cmd = false := by
-  cases hs : skipsEcho cfg x.cmd with
+    (h : WellFormed cfg stale x) : skipsEcho x.cmd = false := by
+  cases hs : skipsEcho x.cmd with
   | false => rfl
   | true =>
     exfalso
-    simp only [skipsEcho, Bool.and_eq_true, Bool.not_eq_true', List.isEmpty_iff] at hs
+    simp only [skipsEcho, List.isEmpty_iff] at hs
     obtain ⟨hne, he, _⟩ := h
     have hlen : 0 < (stale ++ x.echo).flatten.length := by
       cases hh : (stale ++ x.echo).flatten with
       | nil => exact absurd hh hne
       | cons a t => simp
     have := he.2 0 hlen
-    simp [echoPred, hs.1, hs.2, window, roughlyContains, isInfix] at this
+    cases hx : cfg.exact <;> simp [echoPred, hs, hx, window, roughlyContains, isInfix] at this
 
 theorem wellFormedO_plain_iff (cfg : Cfg) (stale : List Bytes) (x : Exchange)
-    (hs : skipsEcho cfg x.cmd = false) :
+    (hs : skipsEcho x.cmd = false) :
     WellFormedO cfg {} stale.flatten x ↔ WellFormed cfg stale x := by
   unfold WellFormedO WellFormed finalPred sendPre
   simp [List.flatten_append, hs, and_assoc]
@@ -188,14 +189,14 @@ example : ¬ ExactAt (promptPred demoCfg) demoX3.resp.flatten := by decide +kern
 example : WellFormedO demoCfg { eager := true } [] demoX1 := by unfold WellFormedO; decide +kernel
 example : WellFormedO demoCfg {} demoX1.resp.flatten demoX2 := by unfold WellFormedO; decide +kernel
 example : WellFormedP demoCfg [] demoP := by unfold WellFormedP; decide +kernel
-example : skipsEcho demoCfg demoX4.cmd = true ∧ WellFormedO demoCfg {} [] demoX4 := by
+example : skipsEcho demoX4.cmd = true ∧ WellFormedO demoCfg {} [] demoX4 := by
   unfold WellFormedO; decide +kernel
 
 /-- One send with options and stale bytes in the queue. Not eager: the result is the processed
 answer of *this* exchange — everything up to the first point where the prompt pattern or an interim
 pattern matches — and the queue is drained. Eager: the result is `processOut` of nothing and the
 queue holds exactly the device's answer, untouched. Either way the device was sent the command and
-then one return. (`sendPre` is empty unless the input is empty in fuzzy mode.) -/
+then one return. (`sendPre` is empty unless the input is empty.) -/
 theorem sendInputO_with_stale (cfg : Cfg) (o : SendOpts) (s : Sess) (x : Exchange)
     (h : WellFormedO cfg o s.q.flatten x) :
     ∃ s', sendInputO cfg o s x
@@ -208,7 +209,7 @@ theorem sendInputO_with_stale (cfg : Cfg) (o : SendOpts) (s : Sess) (x : Exchang
   -- the first read: skipped, or exactly `stale ++ echo`
   have h1 : ∃ r t1, echoRead cfg x.cmd (s.q ++ x.echo) = some (r, t1) ∧
       t1.flatten = sendPre cfg s.q.flatten x := by
-    cases hs : skipsEcho cfg x.cmd with
+    cases hs : skipsEcho x.cmd with
     | true => exact ⟨[], s.q ++ x.echo, by simp [echoRead, hs], by simp [sendPre, hs]⟩
     | false =>
       obtain ⟨hne1, he1⟩ := he hs
@@ -236,29 +237,22 @@ theorem sendInputO_with_stale (cfg : Cfg) (o : SendOpts) (s : Sess) (x : Exchang
     simp only [h1, heg]
     simp
 
-/-- **The empty command in exact mode** — the part of the property statement the theorems above do
-not reach. With `ExactMatchInput`, an empty input and a drained queue (the device echoes nothing for
-an empty input), the first read of `SendInputB` never completes: `ReadUntilExplicit` has no exit for
-an empty input and tests its predicate only after a chunk arrived. The operation then ends in its
-timeout instead of returning the (well-formed) answer of the device. In fuzzy mode the same exchange
-completes (`sendInputO_with_stale` with `skipsEcho`). -/
-theorem emptyCommand_exact_blocks (cfg : Cfg) (o : SendOpts) (s : Sess) (resp : List Bytes)
-    (hx : cfg.exact = true) (hq : s.q = []) :
-    sendInputO cfg o s ⟨[], [], resp⟩ = none := by
-  simp [sendInputO, echoRead, skipsEcho, hx, hq, readUntil]
-
-/-- the full statement for that case, which the code as it stands does not satisfy (finding
-C01-F16; it holds for `cfg.exact = false`: `emptyCommand_fuzzy_completes`) -/
+/-- **The empty command** (in both matching modes, since the repair of finding
+C01-empty-command-exact): from a drained queue, with a device that echoes nothing for an empty input
+and answers the bare return with a well-formed answer, the send returns that answer processed,
+leaves the queue empty and writes the empty input and one return. Before the repair this held in
+fuzzy mode only: with `ExactMatchInput` the first read had no exit for an empty input and waited for
+an echo that cannot come (`emptyCommand_prefix_loop_blocks` in `Props/C01Body.lean` keeps the old
+loop's behaviour as a negative witness). -/
 def EmptyCommandCompletes (cfg : Cfg) : Prop :=
   ∀ (s : Sess) (resp : List Bytes), s.q.flatten = [] → resp.flatten ≠ [] →
     ExactAt (promptPred cfg) resp.flatten →
     ∃ s', sendInputO cfg {} s ⟨[], [], resp⟩ = some (processOut cfg resp.flatten, s') ∧
       s'.q.flatten = [] ∧ s'.writes = s.writes ++ [[], cfg.ret]
 
-theorem emptyCommand_fuzzy_completes (cfg : Cfg) (hx : cfg.exact = false) :
-    EmptyCommandCompletes cfg := by
+theorem emptyCommand_completes (cfg : Cfg) : EmptyCommandCompletes cfg := by
   intro s resp hq hne hp
-  have hsk : skipsEcho cfg [] = true := by simp [skipsEcho, hx]
+  have hsk : skipsEcho ([] : Bytes) = true := rfl
   have hpre : sendPre cfg s.q.flatten ⟨[], [], resp⟩ = [] := by simp [sendPre, hsk, hq]
   have hw : WellFormedO cfg {} s.q.flatten ⟨[], [], resp⟩ := by
     refine ⟨fun h => ?_, fun _ => ?_⟩
@@ -270,13 +264,15 @@ theorem emptyCommand_fuzzy_completes (cfg : Cfg) (hx : cfg.exact = false) :
   · rw [h1, hpre]; simp
   · rw [h2]; simp
 
-theorem emptyCommand_exact_partial (cfg : Cfg) (hx : cfg.exact = true) (resp : List Bytes)
-    (hne : resp.flatten ≠ []) (hp : ExactAt (promptPred cfg) resp.flatten) :
-    ¬ EmptyCommandCompletes cfg := by
-  intro h
-  obtain ⟨s', h1, _⟩ := h { q := [], writes := [] } resp rfl hne hp
-  rw [emptyCommand_exact_blocks cfg {} _ resp hx rfl] at h1
-  exact absurd h1 (by simp)
+/-- the matching mode does not enter: the empty command runs the same way under `ExactMatchInput`
+and without it -/
+theorem emptyCommand_mode_independent (cfg : Cfg) (o : SendOpts) (s : Sess) (resp echo : List Bytes)
+    (m : Bool) :
+    (sendInputO { cfg with exact := m } o s ⟨[], echo, resp⟩).map Prod.fst
+      = (sendInputO cfg o s ⟨[], echo, resp⟩).map Prod.fst ∧
+    (sendInputO { cfg with exact := m } o s ⟨[], echo, resp⟩).map (·.2.q)
+      = (sendInputO cfg o s ⟨[], echo, resp⟩).map (·.2.q) := by
+  constructor <;> rfl
 
 /-- **GetPrompt.** With `stale` bytes left in the queue, a well-formed `GetPrompt` returns
 `PromptPattern.Find` of exactly `stale ++` what the device emitted for the return, drains the queue
@@ -367,18 +363,18 @@ theorem runOps_exact (cfg : Cfg) (findP : Bytes → Bytes) (ops : List ChanOp) (
     · rw [hw2, hw1]; simp
 
 theorem sendPre_of_not_skips (cfg : Cfg) (st : Bytes) (x : Exchange)
-    (h : skipsEcho cfg x.cmd = false) : sendPre cfg st x = [] := by simp [sendPre, h]
+    (h : skipsEcho x.cmd = false) : sendPre cfg st x = [] := by simp [sendPre, h]
 
-theorem skipsEcho_of_ne (cfg : Cfg) (cmd : Bytes) (h : cmd ≠ []) : skipsEcho cfg cmd = false := by
+theorem skipsEcho_of_ne (cmd : Bytes) (h : cmd ≠ []) : skipsEcho cmd = false := by
   cases cmd with
   | nil => exact absurd rfl h
   | cons a t => simp [skipsEcho]
 
-/-- a list of plain sends (none of them an empty input in fuzzy mode) is `sendAll`:
+/-- a list of plain sends (none of them an empty input) is `sendAll`:
 `sendCommands_exact` is the instance of `runOps_exact` without `GetPrompt`, interim patterns and
 eager sends -/
 theorem runOps_sends (cfg : Cfg) (findP : Bytes → Bytes) (xs : List Exchange) (s : Sess)
-    (h : ∀ x ∈ xs, skipsEcho cfg x.cmd = false) :
+    (h : ∀ x ∈ xs, skipsEcho x.cmd = false) :
     runOps cfg findP s (xs.map (ChanOp.send {})) = sendAll cfg s xs := by
   induction xs generalizing s with
   | nil => rfl
@@ -445,7 +441,7 @@ theorem eager_then_send (cfg : Cfg) (findP : Bytes → Bytes) (s : Sess) (x1 x2 
     ∃ s', runOps cfg findP s [.send { eager := true } x1, .send {} x2]
         = some ([processOut cfg [], processOut cfg x2.resp.flatten], s') ∧
       s'.q.flatten = [] ∧ s'.writes = s.writes ++ [x1.cmd, cfg.ret, x2.cmd, cfg.ret] := by
-  have hs1 := skipsEcho_of_ne cfg x1.cmd hc
+  have hs1 := skipsEcho_of_ne x1.cmd hc
   have hs2 := wellFormed_not_skips cfg x1.resp x2 h2
   have hl : ChanOp.leaves cfg [] (.send { eager := true } x1) = x1.resp.flatten := by
     simp [ChanOp.leaves, sendPre_of_not_skips, hs1]
